@@ -68,6 +68,14 @@ def step (st : St) (toks : List String) : St × String :=
     match unhex i, parseLookup ["row", s, o, p, q] with
     | some i, some (.row r) => ({ st with rows := st.rows ++ [(i, r)] }, "ok")
     | _, _ => (st, "bad-op")
+  | ["b.setrow", i, s, o, p, q] =>      -- the operator changes the store while the broker runs
+    match unhex i, parseLookup ["row", s, o, p, q] with
+    | some i, some (.row r) => ({ st with rows := (i, r) :: st.rows.filter (·.1 ≠ i) }, "ok")
+    | _, _ => (st, "bad-op")
+  | ["b.delrow", i] =>
+    match unhex i with
+    | some i => ({ st with rows := st.rows.filter (·.1 ≠ i) }, "ok")
+    | none => (st, "bad-op")
   | "b.ev" :: rest =>
     match parseEvent rest with
     | some e =>
